@@ -1,5 +1,81 @@
 //! oracle self-tests run by setup.sh
+
+/// Cross-check of the own strict CBOR walker against ciborium on a generated corpus: encodings of
+/// generated protocol messages (including the malformed ones of the known C22 defects), random
+/// well-formed trees of the own encoder, and byte-level mutations of both.
+fn walker_vs_ciborium() -> Result<String, String> {
+    use pv::cbor;
+    use pv::netgen::*;
+    let mut rng = pv::Rng::derive(7, "selftest-ciborium", 0);
+    let mut corpus: Vec<Vec<u8>> = vec![];
+    for _ in 0..1500 {
+        let (m, _) = gen_n1_any_message(&mut rng);
+        if let Ok(b) = m.encode() {
+            if b.len() < 3000 {
+                corpus.push(b);
+            }
+        }
+        let (m, _) = gen_n2_any_message(&mut rng);
+        let b = encode_n2(&m);
+        if b.len() < 3000 {
+            corpus.push(b);
+        }
+        corpus.push(cbor::gen_node(&mut rng, 4).to_vec());
+    }
+    let base = corpus.len();
+    for i in 0..base * 3 {
+        let src = corpus[i % base].clone();
+        let other = corpus[(i * 7 + 1) % base].clone();
+        let (m, _) = cbor::mutate(&src, &[other.as_slice()], &mut rng);
+        if m.len() < 4000 {
+            corpus.push(m);
+        }
+    }
+    let (mut both_ok, mut both_bad, mut explained) = (0u64, 0u64, 0u64);
+    for b in &corpus {
+        let ours = cbor::parse(b);
+        let mut cur: &[u8] = &b[..];
+        let theirs: Result<ciborium::value::Value, _> = ciborium::de::from_reader(&mut cur);
+        let theirs_ok = theirs.is_ok() && cur.is_empty();
+        match (&ours, theirs_ok) {
+            (Ok(_), true) => both_ok += 1,
+            (Err(_), false) => both_bad += 1,
+            (Ok(it), false) => {
+                // ciborium's Value cannot hold simple values other than false/true/null/undefined and
+                // stops at 256 levels; everything else must agree
+                fn exotic(it: &cbor::Item, depth: usize) -> bool {
+                    depth > 200 || (it.major == 7 && (it.ai < 20 || it.ai == 24)) || it.children.iter().any(|c| exotic(c, depth + 1))
+                }
+                if exotic(it, 0) {
+                    explained += 1;
+                } else {
+                    return Err(format!("walker accepts, ciborium rejects: {}", hex::encode(b)));
+                }
+            }
+            (Err(e), true) => {
+                // RFC 8949 3.3: 0xf8 followed by a value < 0x20 is not well-formed; ciborium lets it through
+                // ... and RFC 8949 3.2.3: the chunks of an indefinite-length string must be definite-length
+                // strings of the same major type; ciborium accepts nested indefinite chunks
+                let lenient = match e {
+                    cbor::CborError::Reserved(p) => b[*p] == 0xf8,
+                    cbor::CborError::BadChunk(p) => b[*p] == 0x5f || b[*p] == 0x7f,
+                    _ => false,
+                };
+                if lenient {
+                    explained += 1;
+                } else {
+                    return Err(format!("ciborium accepts, walker rejects ({e:?}): {}", hex::encode(b)));
+                }
+            }
+        }
+    }
+    if both_ok < 2000 || both_bad < 2000 {
+        return Err(format!("corpus too one-sided: {both_ok} accepted, {both_bad} rejected"));
+    }
+    Ok(format!("{} inputs: {both_ok} accepted by both, {both_bad} rejected by both, {explained} explained differences", corpus.len()))
+}
 fn main() {
+    pv::panics::install(); // generated messages include the ones whose encoder panics (caught)
     let mut bad = 0;
     for (n, r) in [("refhash", pv::refhash::selftest()), ("cbor", pv::cbor::selftest()), ("specs", pv::specs::selfcheck())] {
         match r {
@@ -8,6 +84,13 @@ fn main() {
                 println!("selftest {n}: FAILED {e}");
                 bad += 1;
             }
+        }
+    }
+    match walker_vs_ciborium() {
+        Ok(m) => println!("selftest cbor walker vs ciborium: ok ({m})"),
+        Err(e) => {
+            println!("selftest cbor walker vs ciborium: FAILED {e}");
+            bad += 1;
         }
     }
     // corpus sanity
